@@ -15,6 +15,14 @@ from .core import REPO, Undecided, Ob, run, sha256, workdir, PROVED, BOUNDED, RE
 from . import native
 
 
+def float_literal(text):
+    """the rational a floating literal stands for in the real-arithmetic reading: the shortest decimal that denotes the same double (what the source says)"""
+    try:
+        return sp.Rational(Fraction(repr(float(text))))
+    except ValueError:
+        return sp.Rational(Fraction(float(text)))
+
+
 class Unsupported(Undecided):
     pass
 
@@ -1368,10 +1376,7 @@ class Exec:
         if k == 'FloatingLiteral':
             # clang prints the double nearest to the literal with 17 digits (0.1 -> 0.10000000000000001); the real-arithmetic reading of the program takes the
             # literal as the shortest decimal that denotes this double, i.e. what the source says (machine arithmetic treated as mathematical)
-            try:
-                return D(sp.Rational(Fraction(repr(float(n['value'])))))
-            except ValueError:
-                return D(sp.Rational(Fraction(float(n['value']))))
+            return D(float_literal(n['value']))
         if k == 'IntegerLiteral':
             return int(n['value'])
         if k == 'CXXBoolLiteralExpr':
